@@ -108,11 +108,20 @@ class ReaderCorrector(Corrector):
         fieldobj = reader.schema[fieldname]
         sugfield = fieldobj.spelling_fieldname(fieldname)
 
-        for sug in reader.terms_within(sugfield, text, maxdist, prefix=prefix):
-            # Higher scores are better, so negate the distance and frequency
-            f = freq(fieldname, sug) or 1
-            score = 0 - (maxdist + (1.0 / f * 0.5))
-            yield (score, sug)
+        # Look for terms at increasing distances, so each suggestion can be
+        # scored by its actual edit distance instead of the maximum distance
+        seen = set()
+        for dist in xrange(0, maxdist + 1):
+            for sug in reader.terms_within(sugfield, text, dist,
+                                           prefix=prefix):
+                if sug in seen:
+                    continue
+                seen.add(sug)
+                # Higher scores are better, so negate the distance and
+                # frequency
+                f = freq(fieldname, sug) or 1
+                score = 0 - (dist + (1.0 / f * 0.5))
+                yield (score, sug)
 
 
 class ListCorrector(Corrector):
